@@ -29,9 +29,10 @@ def run(prop, select, clause_ok, nontrivial, rule, assumptions, replay_case=None
         if nontrivial(c):
             out.nontrivial(c["name"])
             out.sample({"case": c["name"], "lr": c["lr"]["kind"], "glr": c["glr"]["kind"], "reference": c["flags"]})
+        facts = {"glr-children-exceed-parents-only-by-trailing-layout"} if c["flags"].get("trailingLayoutExcessOnly") else set()
         for cl in c["clauses"]:
             if clause_ok(cl, c):
-                out.fail(cl, c["name"], replay_obj(c), origin=c["origin"])
+                out.fail(cl, c["name"], replay_obj(c), origin=c["origin"], facts=facts)
     if extra:
         extra(out)
     out.assumptions = assumptions
